@@ -621,6 +621,18 @@ theorem ru_roll {c2 k : Nat} (h : c2 &&& 15 = k) (hk : k = 5 ∨ k = 6 ∨ k = 7
   rw [and7_of_and15 h]
   rcases hk with rfl | rfl | rfl <;> decide
 
+theorem edmChan_lt {chan : Nat} (h : chan < 9) : edmChan chan < 9 := by
+  unfold edmChan; split
+  · exact and3_lt chan
+  · exact h
+
+/-- a caption channel number is its own EDM / ENM target -/
+theorem edmChan_caption {chan : Nat} (h : chan < 4) : edmChan chan = chan := by
+  unfold edmChan; split
+  · have : ∀ c < 4, c &&& 3 = c := by decide
+    exact this chan h
+  · rfl
+
 theorem captionCommand_inv {s : St} (h : Inv s) (c1 c2 : Nat) (f2 : Bool) : Inv (captionCommand s c1 c2 f2) := by
   unfold captionCommand
   have hchan := chan_lt (s.curr f2) c1 f2
@@ -640,8 +652,8 @@ theorem captionCommand_inv {s : St} (h : Inv s) (c1 c2 : Nat) (f2 : Bool) : Inv 
     | exact modCh_inv h hc9 (fun ch hc => backspace_inv hc _)
     | exact modCh_inv h hc9 (fun ch hc => carriageReturn_inv hc _)
     | exact modCh_inv h hc9 (fun ch hc => deleteToEnd_inv hc _)
-    | exact modCh_inv h hc9 (fun ch hc => eraseDisplayed_inv hc)
-    | exact modCh_inv h hc9 (fun ch hc => eraseNonDisplayed_inv hc)
+    | exact modCh_inv h (edmChan_lt hc9) (fun ch hc => eraseDisplayed_inv hc)
+    | exact modCh_inv h (edmChan_lt hc9) (fun ch hc => eraseNonDisplayed_inv hc)
     | exact modCh_inv h hc9 (fun ch hc => case7_inv hc _ _)
     | exact modCh_inv h hc9 (fun ch hc => hc.withAttr _)
     | exact switchChannel_inv h hc9 _
